@@ -278,6 +278,28 @@ fn run(case: &Value) -> Value {
                 },
             }
         }
+        "escape_unescape" => {
+            let s = match String::from_utf8(bytes_of(&case["bytes"])) { Ok(s) => s, Err(_) => return json!({"r": "input-not-utf8"}) };
+            let e = ldap3::ldap_escape(s.as_str());
+            match ldap3::ldap_unescape(e.as_ref()) {
+                Ok(o) => json!({"r": "ok", "out": o.as_bytes(), "borrowed": false}),
+                Err(_) => json!({"r": "err"}),
+            }
+        }
+        "escape_in_filter" => {
+            let s = match String::from_utf8(bytes_of(&case["bytes"])) { Ok(s) => s, Err(_) => return json!({"r": "input-not-utf8"}) };
+            let e = ldap3::ldap_escape(s.as_str());
+            let text = if case["where"].as_u64() == Some(0) { format!("(a={})", e) } else { format!("(a=x*{}*y)", e) };
+            let ber = match ldap3::parse_filter(&text) {
+                Ok(t) => {
+                    let mut buf = BytesMut::new();
+                    lber::write::encode_into(&mut buf, t.into_structure()).unwrap();
+                    Some(buf.to_vec())
+                }
+                Err(_) => None,
+            };
+            json!({"esc": e.as_bytes(), "ber": ber})
+        }
         "result" => {
             let t = tree_of(&case["tree"]);
             let (r, exop, sasl) = ldap3::verif_hooks::result_ext(Tag::StructureTag(t));
